@@ -218,8 +218,11 @@ def add_tag(tag_name: str):
     Raises
     ------
     DuplicateTagError
-        If a tag_name that already exists is used.
+        If a tag_name that already exists is used, or one that is the name of a member of this module (``Tags.<name>``
+        would find that member instead of the tag).
     """
+    if tag_name in globals():
+        raise DuplicateTagError(tag_name)
     _module_library.add_tag(tag_name)
 
 
